@@ -13,6 +13,7 @@ import (
 	"fmt"
 	"os"
 	"reflect"
+	"strings"
 	"time"
 
 	"k8s.io/apimachinery/pkg/api/resource"
@@ -35,7 +36,27 @@ const (
 	kfUndefinedLabel = "existing-node-undefined-label-after-notin"
 	// F13: ExistingNode.CanAdd checks host ports against bound pods only, not against daemonset pods still to arrive
 	kfDaemonPort = "existing-node-daemon-hostport-not-reserved"
+	// F14: isDaemonPodCompatible drops required OR-terms from the SHARED daemon pod while probing one instance type; later
+	// instance types and the existing nodes are judged against the truncated affinity and the daemon's overhead is missed
+	kfDaemonTerms = "daemon-affinity-terms-dropped-while-probing"
+	// F15: daemon overhead is computed against the NodePool template; a custom label key that only a pod introduces on the
+	// claim (allowed for NotIn / DoesNotExist, later narrowed) ends up as a node label and lets further daemonsets match
+	kfDaemonLabel = "daemon-overhead-ignores-labels-introduced-by-pods"
 )
+
+func multiTermDaemon(ds []sk.PodDump) bool {
+	for _, d := range ds {
+		if len(d.Req) >= 2 {
+			return true
+		}
+	}
+	return false
+}
+
+func mentions(d sk.PodDump, k string) bool {
+	n, _ := constraintsOn(d, k)
+	return n > 0
+}
 
 func positive(op string) bool { return op != "NotIn" && op != "DoesNotExist" }
 
@@ -89,7 +110,30 @@ func clash(a, b sk.HostPort) bool {
 	return a.Proto == b.Proto && a.Port == b.Port && (a.IP == b.IP || a.IP == "0.0.0.0" || b.IP == "0.0.0.0")
 }
 
-func kfKeyClaim(cd sk.ClaimDump) string {
+func kfKeyClaim(cd sk.ClaimDump, daemons []sk.PodDump) string {
+	if k := kfKeyClaimPods(cd); k != "" {
+		return k
+	}
+	if multiTermDaemon(daemons) {
+		return kfDaemonTerms
+	}
+	defined := map[string]bool{}
+	for _, k := range cd.PoolKeys {
+		defined[k] = true
+	}
+	for _, r := range cd.Reqs {
+		if strings.HasPrefix(r.Key, "example.com/") && !defined[r.Key] {
+			for _, d := range daemons {
+				if mentions(d, r.Key) {
+					return kfDaemonLabel
+				}
+			}
+		}
+	}
+	return ""
+}
+
+func kfKeyClaimPods(cd sk.ClaimDump) string {
 	empty := map[string]bool{}
 	for _, r := range cd.Reqs {
 		if !r.Compl && len(r.Vals) == 0 {
@@ -147,6 +191,9 @@ func kfKeyExisting(e sk.ExistingDump) string {
 			}
 		}
 	}
+	if multiTermDaemon(e.Daemons) {
+		return kfDaemonTerms
+	}
 	return ""
 }
 
@@ -177,7 +224,7 @@ func judgeWorld(c *kit.Ctx, w *sk.World, cfg sk.RunCfg, idx int, noTopo bool) {
 		term := fmt.Sprintf("(BNew %s %s %s %s %s %s)", gWK(d.WellKnown), gReqs(cd.Reqs), kit.GListOf(cd.Taints, gTaint), kit.GListOf(cd.Options, gOpt),
 			kit.GListOf(cd.Pods, gPod), kit.GListOf(d.Daemons, gPod))
 		in := map[string]interface{}{"kind": "Solve/new-nodeclaim", "config": cfg, "claim": cd, "daemons": d.Daemons}
-		if k := kfKeyClaim(cd); k != "" {
+		if k := kfKeyClaim(cd, d.Daemons); k != "" {
 			in["kf_key"] = k
 			c.Count("B.kf-shape." + k)
 		}
